@@ -92,7 +92,7 @@ impl Default for Profile {
             min_tasks: 2,
             p_obs_counts: 20,
             epilogue: false,
-            p_bulk: 2,
+            p_bulk: 4,
         }
     }
 }
@@ -332,10 +332,73 @@ fn gen_bulk(rng: &mut Rng, p: &Profile) -> Case {
     Case { cap, ctor: fl(rng), class, mask: rng.next(), knobs: gen_knobs(rng, p), tasks, main_keeps_roots: false, lock_harness: false, epilogue: vec![] }
 }
 
+/// Crowd variant: five or six tasks of one side wait at the same time (the wait list has to grow beyond its
+/// initial room for 4 / 8 waiters), one task of the other side serves them.
+fn gen_crowd(rng: &mut Rng, p: &Profile) -> Case {
+    let cap = *rng.pick(&[Cap::Bounded(0), Cap::Bounded(0), Cap::Bounded(1), Cap::Bounded(2)]);
+    let class = *rng.pick(&p.classes);
+    let fl = |rng: &mut Rng| if rng.chance(1, 2) { Flavour::Async } else { Flavour::Sync };
+    let crowd_sends = rng.chance(1, 2);
+    let n = rng.range(5, 6) as usize;
+    let mut tasks = Vec::new();
+    let mut id = 0u32;
+    let mut total = 0u32;
+    for _ in 0..n {
+        let k = rng.range(1, 2);
+        let mut ops = Vec::new();
+        for _ in 0..k {
+            if crowd_sends {
+                ops.push(match rng.below(4) {
+                    0 => Op::ASend { h: 0, id, plan: PollPlan::default() },
+                    1 => Op::SendTimeout { h: 0, id, us: *rng.pick(&[100u32, 2_000_000]) },
+                    _ => Op::Send { h: 0, id },
+                });
+                id += 1;
+            } else {
+                ops.push(match rng.below(4) {
+                    0 => Op::ARecv { h: 0, plan: PollPlan::default() },
+                    1 => Op::RecvTimeout { h: 0, us: *rng.pick(&[100u32, 2_000_000]) },
+                    _ => Op::Recv { h: 0 },
+                });
+            }
+            total += 1;
+        }
+        let side = if crowd_sends { Side::S } else { Side::R };
+        tasks.push(TaskSpec { handles: vec![HandleSpec { side, flavour: fl(rng), derive: Derive::CloneAs }], ops });
+    }
+    let mut ops = vec![Op::Yield, Op::Yield];
+    for _ in 0..total {
+        if crowd_sends {
+            ops.push(match rng.below(5) {
+                0 => Op::TryRecv { h: 0 },
+                1 => Op::Drain { h: 0, pre: 0, spare: 0 },
+                2 => Op::ARecv { h: 0, plan: PollPlan::default() },
+                _ => Op::Recv { h: 0 },
+            });
+        } else {
+            ops.push(match rng.below(4) {
+                0 => Op::TrySend { h: 0, id },
+                1 => Op::ASend { h: 0, id, plan: PollPlan::default() },
+                _ => Op::Send { h: 0, id },
+            });
+            id += 1;
+        }
+        if rng.chance(1, 4) {
+            ops.push(Op::Yield);
+        }
+    }
+    if crowd_sends {
+        ops.push(Op::RecvAll { h: 0, max: 20 });
+    }
+    let side = if crowd_sends { Side::R } else { Side::S };
+    tasks.push(TaskSpec { handles: vec![HandleSpec { side, flavour: fl(rng), derive: Derive::CloneAs }], ops });
+    Case { cap, ctor: fl(rng), class, mask: rng.next(), knobs: gen_knobs(rng, p), tasks, main_keeps_roots: false, lock_harness: false, epilogue: vec![] }
+}
+
 /// G-mpmc and its parameterisations.
 pub fn gen_case(rng: &mut Rng, p: &Profile) -> Case {
     if rng.below(100) < p.p_bulk as u64 {
-        return gen_bulk(rng, p);
+        return if rng.chance(1, 2) { gen_bulk(rng, p) } else { gen_crowd(rng, p) };
     }
     let cap = pick_cap(rng, p);
     let class = *rng.pick(&p.classes);
@@ -557,7 +620,7 @@ pub fn profile_for(prop: &str) -> Profile {
             p.ops = (1, 5);
         }
         "C13" => {
-            p.timeouts = vec![0, 5, 20, 100, 0, 5, 20, 100, u32::MAX];
+            p.timeouts = vec![0, 5, 20, 100, 0, 5, 20, 100, u32::MAX, 2_000_000, 4_000_000_000];
             p.send_w = [5, 35, 35, 3, 3, 2, 2, 15];
             p.recv_w = [10, 50, 5, 2, 3, 20, 5, 5];
             p.p_advance = 15;
